@@ -470,6 +470,9 @@ func init() {
 				if o.Rule == "B" && funcHas(o, "Close") {
 					return true
 				}
+				if o.Rule == "O" && subjHas(o, "Buffer.", "consumer.", "Channel.") {
+					return true
+				}
 				// lock pairing (incl. panic exits) and the wake-ups Close depends on: an unpaired lock or a lost
 				// wake-up of consumer.cond / Buffer.cond makes Close (or every later call) block for ever
 				if ruleIn(o, "P", "PX", "WL", "S", "SL") && funcHas(o, "(*Buffer)", "(*consumer)", "(*Channel)") {
